@@ -31,10 +31,12 @@ let float_of_dec (d : dec) : float =
   let e = int_of_z d.d_exp in
   float_of_string (Printf.sprintf "%s%se%d" (if d.d_neg then "-" else "") ds e)
 
-let reg_str = function RegNone -> "none" | Reg (b, e) -> Printf.sprintf "%d:%d" (int_of_nat b) (int_of_nat e) | RegAnomaly -> "anomaly"
+let reg_str = function RegNone -> "none" | Reg (b, e) -> Printf.sprintf "%d:%d" (int_of_nat b) (int_of_nat e)
 
-let kind_of (s : string) : kind =
+let rec kind_of (s : string) : kind =
+  if s.[String.length s - 1] = '!' then KReq (kind_of (String.sub s 0 (String.length s - 1))) else
   match s.[0] with
+  | 'T' -> KTuple (nat_of_int (int_of_string (String.sub s 1 (String.length s - 1))))
   | 'R' -> KReal | 'I' -> KInt | 'B' -> KBool | 'S' -> KString | 'V' -> KRealVec | 'K' -> KBlock
   | 'N' -> KRealVecN (nat_of_int (int_of_string (String.sub s 1 (String.length s - 1))))
   | _ -> failwith "kind"
@@ -44,6 +46,32 @@ let schema_of (s : string) : (z list * kind) list =
   List.map (fun it -> match String.split_on_char ':' it with
       | [k; key] -> (unhex key, kind_of k) | _ -> failwith "schema") (String.split_on_char ',' s)
 
+(* nested schema: items separated by ';', a block is G:<keyhex>[<items>] *)
+let parse_nested (s : string) : nitem list =
+  let n = String.length s in
+  let pos = ref 0 in
+  let rec items () : nitem list =
+    if !pos >= n || s.[!pos] = ']' then [] else begin
+      let it = item () in
+      if !pos < n && s.[!pos] = ';' then (Stdlib.incr pos; it :: items ()) else [it]
+    end
+  and item () : nitem =
+    let st = !pos in
+    while !pos < n && s.[!pos] <> ':' do Stdlib.incr pos done;
+    let k = String.sub s st (!pos - st) in
+    Stdlib.incr pos;
+    let st2 = !pos in
+    while !pos < n && s.[!pos] <> ';' && s.[!pos] <> '[' && s.[!pos] <> ']' do Stdlib.incr pos done;
+    let key = unhex (String.sub s st2 (!pos - st2)) in
+    if k = "G" then begin
+      Stdlib.incr pos;               (* '[' *)
+      let sub = items () in
+      Stdlib.incr pos;               (* ']' *)
+      NBlock (key, sub)
+    end else NLeaf (key, kind_of k)
+  in
+  if s = "-" then [] else items ()
+
 let value_str = function
   | VNotGiven -> "-"
   | VReal d -> Printf.sprintf "%h" (float_of_dec d)
@@ -52,12 +80,12 @@ let value_str = function
   | VString s -> "s" ^ hex s
   | VReals l -> "[" ^ String.concat ";" (List.map (fun d -> Printf.sprintf "%h" (float_of_dec d)) l) ^ "]"
   | VBlocks l -> "{" ^ String.concat "|" (List.map hex l) ^ "}"
+  | VTuple l -> "(" ^ String.concat ";" (List.map (fun d -> Printf.sprintf "%h" (float_of_dec d)) l) ^ ")"
   | VBad -> "bad"
 
 let presult_str = function
   | PAccept vs -> "accept " ^ String.concat " " (List.map value_str vs)
   | PReject -> "reject"
-  | PAnomaly -> "anomaly"
   | POutOfFuel -> "outoffuel"
 
 let () =
@@ -81,6 +109,8 @@ let () =
         print_endline (presult_str (parse_flat (strict = "1") (schema_of sch) (unhex c)))
       | "PC" :: strict :: sch :: c :: _ ->
         print_endline (presult_str (parse_config (strict = "1") (schema_of sch) (unhex c)))
+      | "NP" :: strict :: sch :: c :: _ ->
+        print_endline (if nparse_config (strict = "1") (parse_nested sch) (unhex c) then "accept" else "reject")
       | "SS" :: d :: dl :: _ ->
         (match split_string (unhex d) (unhex dl) with
          | None -> print_endline "outoffuel"
